@@ -37,7 +37,7 @@ Section PolyAux.
     match count with
     | O => Some vs
     | S c =>
-      let '(md, me, ml, il', iv') := scan_ext vs 0 (pinner P) processed (c9e14, O, O, il, iv_id) in
+      let '(md, me, ml, il', iv') := scan_ext vs 0 (pinner P) processed (scan_start wrap, O, O, il, iv_id) in
       match nth_error (pinner P) ml with
       | None => None
       | Some hole =>
@@ -54,7 +54,7 @@ Section PolyAux.
     match count with
     | O => true
     | S c =>
-      let '(md, me, ml, il', iv') := scan_ext (verts ret_loop) 0 (pinner P) processed (c9e14, O, O, il, iv_id) in
+      let '(md, me, ml, il', iv') := scan_ext (verts ret_loop) 0 (pinner P) processed (scan_start wrap, O, O, il, iv_id) in
       match nth_error (pinner P) ml with
       | None => false
       | Some hole =>
